@@ -25,7 +25,7 @@ ERROR_PATHS = [
     "materialize: early return when already materialized : not exercised by C04 (by design a no-op; C09/C11)",
     "materialize(col_stats): asserts on missing columns / statistics : supplied cases (complete statistics) -> supplied-raises:*; any rewrite of the supplied lists : wide-int / float categories -> supplied-frame, supplied-stats, supplied-stats-source-changed",
     "materialize: binary-target re-sort (len(index) == 2) : binary targets -> y-rows, unseen:target (and C03)",
-    "CategoricalTensorMapper.forward: astype(object) of keys and category index (no pandas merge refusal) : int / float / wide-int categories x all-missing selections, strings among numeric categories, numbers among string categories, float64-held columns with non-integral values and +/-inf -> convert-raises:*, row-local:categorical, unseen:categorical",
+    "CategoricalTensorMapper.forward: (Coq: typed_cat_ok -- typed keys with Python equality; theorems typed_*) astype(object) of keys and category index (no pandas merge refusal) : int / float / wide-int categories x all-missing selections, strings among numeric categories, numbers among string categories, float64-held columns with non-integral values and +/-inf -> convert-raises:*, row-local:categorical, unseen:categorical",
     "CategoricalTensorMapper.forward: NaN -> -1 and .to(long) : missing cells, unseen values -> unseen:categorical, row-local:categorical",
     "MultiCategoricalTensorMapper.__init__: object index with the -1 marker : columns without any category + unseen tokens -> convert-raises:*:unseen",
     "MultiCategoricalTensorMapper.forward: dtype gate ValueError (non-object / non-string column) : outside the quantifier (C01 malformed stream)",
@@ -68,7 +68,7 @@ CLAUSES = [
     "previously computed statistics to materialize gives the same result as recomputing them' (a raise gives no result)",
     "tensor-frame-index-raises <- observe_at 'dataset.tensor_frame[idx]' for in-range positions of the source frame",
 ]
-HEADER = ("From PF Require Import Gen.Tables Lib.ListX Model.Ragged Model.Mapper Model.MapperSpec Model.Converter "
+HEADER = ("Require Import Coq.QArith.QArith.\nFrom PF Require Import Gen.Tables Lib.ListX Model.Ragged Model.Mapper Model.MapperSpec Model.Converter "
           "Model.ConverterState.\nOpen Scope Z_scope.")
 MODEL_TARGETS = ["Model/ConverterState.vo"]
 SHARD = 17
@@ -949,6 +949,50 @@ def pv(v):
     return M.ppval(v)
 
 
+def tv(v):
+    """a raw category value with its Python type as a `tval` of Model/ConverterState.v"""
+    from fractions import Fraction
+    if isinstance(v, bool):
+        raise M.NotExact("bool category")
+    if isinstance(v, int):
+        return f"TInt {M.zs(v)}"
+    if isinstance(v, float) and v in (float("inf"), float("-inf")):
+        return f"TInf {'true' if v > 0 else 'false'}"
+    if isinstance(v, float):
+        f = Fraction(v)
+        return f"TFloat (({M.zs(f.numerator)} # {f.denominator})%Q)"
+    return f"TStr {M.pstr(v)}"
+
+
+def typed_terms(case, obs, call, tfj, by):
+    """typed_cat_ok for every categorical feature column of one converted frame: the typed model of the categorical
+    merge (ints / floats / strings with Python's key equality) against the cells the implementation produced"""
+    desc = case["frame"]
+    out = []
+    for name in desc["col_order"]:
+        col = by[name]
+        if col["stype"] != "categorical" or name == desc["target"] or name == call.get("drop_feature"):
+            continue
+        loc = locate(tfj, col)
+        if loc is None:
+            return None
+        numeric_col = not any(isinstance(x, str) for x in col["cells"])
+
+        def cell(v):
+            if v is None:
+                return "None"
+            if numeric_col and v in ("inf", "-inf"):
+                return f"(Some (TInf {'true' if v == 'inf' else 'false'}))"
+            return f"(Some ({tv(v)}))"
+        cats = obs["stats"][name]["COUNT"][0]
+        cells = selected_cells(case, call, col)
+        got = [feat_cell(tfj, loc[0], p, loc[1]) for p in range(len(call["rows"]))]
+        if any(not (isinstance(g, list) and len(g) == 1 and isinstance(g[0], int)) for g in got):
+            return None
+        out.append(f"typed_cat_ok {M.plist(cats, tv)} {M.plist(cells, cell)} {M.plist([g[0] for g in got], M.zs)}")
+    return out
+
+
 def coq_fcol(col, cells, parsed, rows):
     st = col["stype"]
     if st == "numerical":
@@ -1096,6 +1140,7 @@ def coq_terms(case, obs, full):
         return "false"
     # session: materialization is the converter's first call, then the user calls (None = the call raised)
     items = [f"({whole_df}, Some {base_obs})"]
+    typed = typed_terms(case, obs, whole, obs["base"], by) or []
     sel_term = None
     for call, rec in zip(case["calls"], obs["calls"]):
         df = coq_df(case, call, rec.get("parsed"), labels)
@@ -1106,6 +1151,10 @@ def coq_terms(case, obs, full):
         if o is None:
             return "false"
         items.append(f"({df}, Some {o})")
+        tt = typed_terms(case, obs, call, rec["tf"], by)
+        if tt is None:
+            return "false"
+        typed.extend(tt)
         if full and sel_term is None and plain(call) and not call["drop_target"] and isinstance(rec.get("sel"), dict) \
                 and "exc" not in rec["sel"] and rec["parsed"] == {k: [v[r] for r in call["rows"]]
                                                                   for k, v in obs["parsed"].items()}:
@@ -1120,7 +1169,7 @@ def coq_terms(case, obs, full):
         if o is None:
             return "false"
         items.append(f"({whole_df}, Some {o})")
-    terms = [f"session_ok {cts} {target} {fits} {M.plist(items)}"]
+    terms = [f"session_ok {cts} {target} {fits} {M.plist(items)}"] + typed
     if not full:
         return " && ".join(terms)
     if sel_term:
